@@ -15,6 +15,7 @@ import B2Z.Model.EncodeProto
 import B2Z.Model.Checks
 import B2Z.Model.Cli
 import B2Z.Model.SchemaJson
+import B2Z.Model.Rows
 /-! JSON line-protocol driver: one request object per line in, one JSON value per line out.
     Only `Model.*` (core Lean) is imported, so this also builds as a native executable. -/
 open Lean
@@ -519,6 +520,27 @@ def handle (j : Json) : Except String Json := do
     match SchemaJson.Schema.ofJ expected (toJ doc) with
     | .error e => pure (Json.mkObj [("error", Json.str e)])
     | .ok sch => pure (Json.mkObj [("doc", ofJ sch.toJ), ("n_fields", Json.num (JsonNumber.fromNat sch.fields.length))])
+  | "rows.float1d" =>
+    let w ← reqNat j "w"
+    let v : Option (List Nat) ← match j.getObjVal? "value" with
+      | .ok .null => pure none
+      | .ok x => (natList x).map some
+      | .error _ => pure none
+    pure (optJson natsJson (Rows.floatRow1d w v))
+  | "rows.float2d" =>
+    let w ← reqNat j "w"; let n ← reqNat j "samples"
+    let v : Option (List (List Nat)) ← match j.getObjVal? "value" with
+      | .ok .null => pure none
+      | .ok x => do let a ← x.getArr?; (a.toList.mapM natList).map some
+      | .error _ => pure none
+    pure (optJson (fun rows => Json.arr (rows.map natsJson).toArray) (Rows.floatRow2d w v n))
+  | "rows.str1d" =>
+    let w ← reqNat j "w"
+    let v : Option (List String) ← match j.getObjVal? "value" with
+      | .ok .null => pure none
+      | .ok x => do let a ← x.getArr?; (a.toList.mapM (fun (e : Json) => e.getStr?)).map some
+      | .error _ => pure none
+    pure (optJson (fun r => Json.arr (r.map Json.str).toArray) (Rows.strRow1d w v))
   | "xp.hist" =>
     let c ← xpCfg j
     let hist ← (← reqArr j "history").toList.mapM xpCmd
